@@ -393,7 +393,7 @@ func (e *Engine) isSpecFunc(fn *ssa.Function) bool {
 		return e.isSpecFunc(fn.Parent())
 	}
 	base := filepath.Base(e.Fset.Position(pos).Filename)
-	if strings.HasPrefix(base, "zz_verif_extract_") || base == "verif_extract.go" {
+	if strings.HasPrefix(base, "zz_verif_extract_") || base == "verif_extract.go" || base == "verif_extract_serve.go" {
 		return false // a section of repository code extracted verbatim (//@ extract): code, not specification
 	}
 	return strings.HasPrefix(base, "verif_") || strings.HasPrefix(base, "zz_verif_")
